@@ -352,7 +352,7 @@ theorem Walk.binds_nil_of_allStatic {E : Engine} {hok : Nat → Bool} :
 def Router.TreesOK (P : Node → Prop) (R : Router) : Prop :=
   ∀ m t, assocGet R.trees m = some t → P t
 
-theorem assocGet_mem {α β} [BEq α] {l : List (α × β)} {k : α} {v : β}
+theorem assocGet_mem_key {α β} [BEq α] {l : List (α × β)} {k : α} {v : β}
     (h : assocGet l k = some v) : ∃ k', (k', v) ∈ l := by
   unfold assocGet at h
   cases hf : l.find? (·.1 == k) with
@@ -365,7 +365,7 @@ theorem assocGet_mem {α β} [BEq α] {l : List (α × β)} {k : α} {v : β}
 
 theorem Router.new_treesOK (P : Node → Prop) (hroot : P Node.root) : Router.new.TreesOK P := by
   intro m t h
-  obtain ⟨k', hm⟩ := assocGet_mem h
+  obtain ⟨k', hm⟩ := assocGet_mem_key h
   simp only [Router.new, List.mem_map] at hm
   obtain ⟨_, _, heq⟩ := hm
   injection heq with _ h2
